@@ -126,7 +126,7 @@ func asInt64(x value) int64 {
 	case uintptr:
 		return int64(x)
 	}
-	panic(fmt.Sprintf("cannot convert %T to int64", x))
+	panic(engineUnsupported{fmt.Sprintf("integer use of %T requires a concrete value", x)})
 }
 
 // asUint64 converts x, which must be an unsigned integer, to a uint64
@@ -146,7 +146,7 @@ func asUint64(x value) uint64 {
 	case uintptr:
 		return uint64(x)
 	}
-	panic(fmt.Sprintf("cannot convert %T to uint64", x))
+	panic(engineUnsupported{fmt.Sprintf("integer use of %T requires a concrete value", x)})
 }
 
 // asUnsigned returns the value of x, which must be an integer type, as its equivalent unsigned type,
@@ -270,6 +270,9 @@ func zero(t types.Type) value {
 // slice returns x[lo:hi:max].  Any of lo, hi and max may be nil.
 func slice(x, lo, hi, max value) value {
 	var Len, Cap int
+	if isSym(x) || isSym(lo) || isSym(hi) || isSym(max) {
+		panic(engineUnsupported{"slice expression with symbolic operand"})
+	}
 	switch x := x.(type) {
 	case string:
 		Len = len(x)
@@ -971,6 +974,9 @@ func callBuiltin(caller *frame, callpos token.Pos, fn *ssa.Builtin, args []value
 		if len(args) == 1 {
 			return args[0]
 		}
+		if isSym(args[0]) || isSym(args[1]) {
+			panic(engineUnsupported{"append with symbolic bytes"})
+		}
 		if s, ok := args[1].(string); ok {
 			// append([]byte, ...string) []byte
 			arg0 := args[0].([]value)
@@ -1036,6 +1042,10 @@ func callBuiltin(caller *frame, callpos token.Pos, fn *ssa.Builtin, args []value
 			return x.len()
 		case chan value:
 			return len(x)
+		case symv:
+			return symv{'I', "(str.len " + x.term + ")"}
+		case symbytes:
+			return symv{'I', "(str.len " + x.term + ")"}
 		default:
 			panic(fmt.Sprintf("len: illegal operand: %T", x))
 		}
@@ -1102,7 +1112,7 @@ func callBuiltin(caller *frame, callpos token.Pos, fn *ssa.Builtin, args []value
 		if recv.(*value) == nil {
 			recvType := args[1]
 			methodName := args[2]
-			panic(fmt.Sprintf("value method (%s).%s called using nil *%s pointer",
+			panic(fmt.Sprintf("target:value method (%s).%s called using nil *%s pointer",
 				recvType, methodName, recvType))
 		}
 		return recv
@@ -1119,12 +1129,11 @@ func rangeIter(x value, t types.Type) iter {
 	case map[value]value:
 		return &mapIter{iter: reflect.ValueOf(x).MapRange()}
 	case *hashmap:
-		if x == nil {
-			return &hashmapIter{}
-		}
-		return &hashmapIter{ents: append([]*entry{}, x.ents...)}
+		return x.iter()
 	case string:
 		return &stringIter{Reader: strings.NewReader(x)}
+	case symv, symbytes:
+		panic(engineUnsupported{"range over symbolic string"})
 	}
 	panic(fmt.Sprintf("cannot range over %T", x))
 }
@@ -1172,6 +1181,9 @@ func widen(x value) value {
 func conv(t_dst, t_src types.Type, x value) value {
 	ut_src := t_src.Underlying()
 	ut_dst := t_dst.Underlying()
+	if isSym(x) {
+		return symConv(ut_dst, ut_src, x)
+	}
 
 	// Destination type is not an "untyped" type.
 	if b, ok := ut_dst.(*types.Basic); ok && b.Info()&types.IsUntyped != 0 {
@@ -1517,7 +1529,7 @@ func fandbits[F floaty](x, y F) F {
 
 func symBinop(op token.Token, t types.Type, x, y value) value {
 	tx, sx, okx := termOf(x)
-	ty, _, oky := termOf(y)
+	ty, sy, oky := termOf(y)
 	if !okx || !oky {
 		// interface or struct comparison containing symbolic parts
 		switch op {
@@ -1526,21 +1538,34 @@ func symBinop(op token.Token, t types.Type, x, y value) value {
 		case token.NEQ:
 			return notv(eqv(t, x, y))
 		}
-		panic(fmt.Sprintf("symBinop %s on %T,%T", op, x, y))
+		panic(engineUnsupported{fmt.Sprintf("symBinop %s on %T,%T", op, x, y)})
+	}
+	if sx != sy {
+		panic(engineUnsupported{fmt.Sprintf("symBinop %s on sorts %c,%c", op, sx, sy)})
 	}
 	b := func(f string) value { return symv{'B', "(" + f + " " + tx + " " + ty + ")"} }
 	switch op {
 	case token.EQL:
+		if tx == ty {
+			return true
+		}
 		return b("=")
 	case token.NEQ:
+		if tx == ty {
+			return false
+		}
 		return symv{'B', "(not (= " + tx + " " + ty + "))"}
 	case token.ADD:
 		if sx == 'S' {
 			return symv{'S', "(str.++ " + tx + " " + ty + ")"}
 		}
-		return symv{'I', "(+ " + tx + " " + ty + ")"}
+		if sx == 'I' {
+			return symv{'I', "(+ " + tx + " " + ty + ")"}
+		}
 	case token.SUB:
-		return symv{'I', "(- " + tx + " " + ty + ")"}
+		if sx == 'I' {
+			return symv{'I', "(- " + tx + " " + ty + ")"}
+		}
 	case token.LSS:
 		if sx == 'S' {
 			return b("str.<")
@@ -1561,8 +1586,85 @@ func symBinop(op token.Token, t types.Type, x, y value) value {
 			return symv{'B', "(str.<= " + ty + " " + tx + ")"}
 		}
 		return b(">=")
+	case token.LAND, token.AND:
+		if sx == 'B' {
+			return b("and")
+		}
+	case token.LOR, token.OR:
+		if sx == 'B' {
+			return b("or")
+		}
 	}
-	panic("symBinop " + op.String())
+	panic(engineUnsupported{"symbolic " + op.String() + " on sort " + string(sx)})
+}
+
+// symConv converts a symbolic scalar between Go types.
+func symConv(ut_dst, ut_src types.Type, x value) value {
+	switch x := x.(type) {
+	case symv:
+		switch x.sort {
+		case 'S':
+			if sl, ok := ut_dst.(*types.Slice); ok {
+				if b, ok := sl.Elem().Underlying().(*types.Basic); ok && b.Kind() == types.Byte {
+					return symbytes{x.term}
+				}
+			}
+			if b, ok := ut_dst.(*types.Basic); ok && b.Info()&types.IsString != 0 {
+				return x
+			}
+		case 'I':
+			if b, ok := ut_dst.(*types.Basic); ok && b.Info()&types.IsInteger != 0 {
+				sb, ok2 := ut_src.(*types.Basic)
+				if ok2 && sb.Info()&types.IsInteger != 0 && intWidens(sb, b) {
+					return x
+				}
+				panic(engineUnsupported{"narrowing conversion of symbolic integer " + ut_src.String() + "->" + ut_dst.String()})
+			}
+		case 'B':
+			return x
+		}
+	case symbytes:
+		if b, ok := ut_dst.(*types.Basic); ok && b.Info()&types.IsString != 0 {
+			return symv{'S', x.term}
+		}
+		if _, ok := ut_dst.(*types.Slice); ok {
+			return x
+		}
+	}
+	panic(engineUnsupported{fmt.Sprintf("conversion of symbolic %T to %s", x, ut_dst)})
+}
+
+func intBits(b *types.Basic) (bits int, signed bool) {
+	switch b.Kind() {
+	case types.Int8:
+		return 8, true
+	case types.Int16:
+		return 16, true
+	case types.Int32:
+		return 32, true
+	case types.Int, types.Int64:
+		return 64, true
+	case types.Uint8:
+		return 8, false
+	case types.Uint16:
+		return 16, false
+	case types.Uint32:
+		return 32, false
+	}
+	return 64, false
+}
+
+// intWidens reports whether every value of src is representable in dst.
+func intWidens(src, dst *types.Basic) bool {
+	sb, ss := intBits(src)
+	db, ds := intBits(dst)
+	if ss == ds {
+		return db >= sb
+	}
+	if !ss && ds {
+		return db > sb
+	}
+	return false
 }
 
 func eqnilv(t types.Type, x, y value) value {
